@@ -92,6 +92,8 @@ def signature(stream, off, invariant):
     if kind in ("Crash", "Restart", "SyncCancel", "WriteErr", "Reset"):
         return "tables-differ:" + kind.lower()
     if kind == "Pack":
+        return "tables-differ:own-block-%s" % ("best" if ev.get("trunk") else "side")
+    if kind == "SeqBound":
         return "sequence-packing:" + ("refused" if ev.get("err") else "accepted")
     if kind == "Q":
         return "query-differs:%s" % ev.get("k")
@@ -148,7 +150,7 @@ def validate(ctx, cfg, streams, label, how, timeout=3000):
             what = "not what LogIndex.tla computes from the receipts of the node's chain"
         sig = signature(stream, off, r.invariant)
         # the last state-changing event before the offending one tells where the log db went wrong
-        last_change = next((brief(e) for e in reversed(stream[:off + 1]) if e["e"] in ("Import", "Crash", "Restart", "Reset", "SyncCancel", "WriteErr")), None)
+        last_change = next((brief(e) for e in reversed(stream[:off + 1]) if e["e"] in ("Import", "Pack", "Crash", "Restart", "Reset", "SyncCancel", "WriteErr")), None)
         tr = ctx.save_replay("%s-%s-seed%s.ndjson" % (label, hdr.get("name"), hdr.get("seed")),
                              "\n".join(json.dumps(e, sort_keys=True) for e in [cfg] + stream) + "\n")
         ctx.save_replay("%s-%s-seed%s.json" % (label, hdr.get("name"), hdr.get("seed")),
